@@ -80,7 +80,7 @@ func (ja *JSONAccessor) GetString(key string) (value string, ok bool) {
 // GetStringArray returns the []string found by the given json key and whether it could be successfully extracted.
 func (ja *JSONAccessor) GetStringArray(key string) (value []string, ok bool) {
 	result := gjson.Get(*ja.json, key)
-	if !result.Exists() && !result.IsArray() {
+	if !result.Exists() || !result.IsArray() {
 		return nil, false
 	}
 	slice := result.Array()
